@@ -272,3 +272,37 @@ Theorem C12_limits_never_decrease : forall e h s s', inv s -> run_st e s h = Som
   forall k, cr (s k) <= cr (s' k) /\ rw (s k) <= rw (s' k) /\ cr (s' k) <= rw (s' k).
 Proof. exact limits_never_decrease. Qed.
 Print Assumptions C12_limits_never_decrease.
+
+(** Round 4. DATAGRAM frames (RFC 9221). Whatever the encoding -- with a length field (type 0x31)
+    or without (0x30, last frame of the packet) -- the client accepts a frame iff DATAGRAM support
+    is on and the TOTAL frame size (type byte, length field if present, payload) is within the
+    enforced limit; the error is FRAME_ENCODING_ERROR when support is off, PROTOCOL_VIOLATION
+    when the frame is too large. (A rule that subtracts a length field the frame does not have
+    rejects frames of advertised-1 / advertised bytes: the fixed table of both encodings at every
+    boundary replays exactly those.) *)
+Theorem C12_datagram_accept_iff : forall e s haslen payload,
+  snd (client_step e s (EvDgramEnc haslen payload)) = None <->
+  l_dgram (e_enf e) <> 0 /\ dgram_frame_size haslen payload <= l_dgram (e_enf e).
+Proof. exact dgram_accept_iff. Qed.
+Print Assumptions C12_datagram_accept_iff.
+
+Theorem C12_datagram_error_code : forall e s haslen payload,
+  client_step e s (EvDgramEnc haslen payload) =
+    (s, if l_dgram (e_enf e) =? 0 then Some FrameEncodingError
+        else if l_dgram (e_enf e) <? dgram_frame_size haslen payload then Some ProtocolViolation else None).
+Proof. exact dgram_enc_client. Qed.
+Print Assumptions C12_datagram_error_code.
+
+(** The sending side (Conn.SendDatagram, always with a length field): a payload is accepted iff the
+    frame it makes is within the PEER's max_datagram_frame_size and the payload within the MTU
+    estimate -- the largest payload is found exactly, also where the length field grows. *)
+Theorem C12_send_datagram_iff : forall mdfs mtu p, 0 <= p -> 2 <= mdfs <= maxVarInt8 ->
+  send_datagram_ok mdfs mtu p = true <-> (dgram_frame_size true p <= mdfs /\ p <= mtu).
+Proof. exact send_datagram_iff. Qed.
+Print Assumptions C12_send_datagram_iff.
+
+(** The excluded corner, as it is: max_datagram_frame_size = 1 leaves room for the type byte only,
+    yet the empty datagram is accepted and sent as a 2-byte frame. *)
+Example C12_send_datagram_mdfs1_corner : send_datagram_ok 1 1200 0 = true /\ dgram_frame_size true 0 = 2.
+Proof. exact send_datagram_mdfs1_corner. Qed.
+Print Assumptions C12_send_datagram_mdfs1_corner.
